@@ -18,6 +18,10 @@
 //            exactly one of them must get an arriving message.  1/20 of the
 //            topics and 1/30 of the bodies are long (60-700 bytes, repeat
 //            patterns with long common prefixes; some bodies 66-150 KB).
+//            In a quarter of the cases a second SUB socket subscribed to ""
+//            (the mirror) is connected to the same publisher(s), which then
+//            have two pipes each: it must receive every publication in
+//            lock-step, byte-identical, and scribbles over what it got.
 //   dettcp   det restricted to tcp with the sentinel.
 //   conc     2 publisher threads, one thread per subscriber context, one
 //            option-setter thread.  Interval oracle: a received body must
@@ -30,10 +34,20 @@
 //            and arrival order; W2 (fixed topic/RECVBUF/PREFNEW, irregular
 //            reader) is judged against "exactly one drop per arrival while
 //            full" using W1's arrival order and publish/receive time stamps.
+//            W3 stays subscribed to "" with RECVBUF above the traffic while
+//            another thread subscribes / unsubscribes other topics on it,
+//            toggles PREFNEW and switches RECVBUF: same oracle as W1.
 //   noblock  PUB with SENDBUF in {1,2,16} against raw TCP peers that finish
 //            the SP handshake as SUB and then never read: every nng_sendmsg
 //            must return 0 (SENDTIMEO 10 s turns a blocked send into a
-//            result; the watchdog is the back-stop).
+//            result; the watchdog is the back-stop) - also before any peer
+//            is connected, while a stuck peer disappears, and after the last
+//            one has gone.  Up to two reading nng subscribers (inproc / tcp)
+//            receive each message before the next is sent: none may be
+//            missing, altered or shared.  At the end one stuck peer is read
+//            out: intact messages, increasing sequence numbers, and the last
+//            SENDBUF messages sent are all there (the publisher's queue drops
+//            exactly its oldest entry per overflow).
 #include "vfh.h"
 
 #include <errno.h>
@@ -221,7 +235,8 @@ enum {
 	K_RESIZE_TRUNC, K_PREFSET, K_CTXOPEN, K_CTXCLOSE, K_CANCEL, K_OPS,
 	K_SENTINEL, K_QUIESCE_LIN, K_SOLO_ARRIVALS, K_MULTIWAIT, K_WAIT_FIFO,
 	K_WAIT_NONFIFO, K_CANCEL_MIDDLE, K_BLOCKING_RECV, K_LONG_TOPIC_MATCH,
-	K_LONG_TOPIC_DECIDE, K_BIG_BODY, K_LONG_BODY, K_N
+	K_LONG_TOPIC_DECIDE, K_BIG_BODY, K_LONG_BODY, K_MULTI_MATCH, K_DELIVER_SOCK,
+	K_BIG_BODY_TCP, K_MIRROR, K_N
 };
 static const char *knames[K_N] = { "publishes", "match_decisions", "delivered",
 	"filtered", "topic_longer_than_body", "empty_topic_match",
@@ -236,7 +251,8 @@ static const char *knames[K_N] = { "publishes", "match_decisions", "delivered",
 	"waiter_first_posted_served", "waiter_other_served",
 	"cancel_of_non_first_waiter", "blocking_recv_compared",
 	"long_topic_matches", "long_topic_decisions", "bodies_over_64k",
-	"bodies_60_to_700" };
+	"bodies_60_to_700", "body_matched_by_several_topics",
+	"delivered_socket_form", "bodies_over_64k_tcp", "mirror_sub_compared" };
 
 typedef struct {
 	vf_rng     r;
@@ -247,6 +263,10 @@ typedef struct {
 	int        npub;
 	nng_ctx    z;
 	nng_aio   *zaio;
+	// mirror: a second SUB socket subscribed to "" on the same publisher(s),
+	// so that every PUB has two pipes; read in lock-step after each publish
+	bool       mirror;
+	nng_socket msub;
 	slot_t     s[NSLOT];
 	dbody_t     bodies[MAXMSG];
 	int        nmsg;
@@ -371,11 +391,13 @@ match_kind(det_t *d, const slot_t *s, const dbody_t *b, bool *matched)
 {
 	bool m = false, empty = false, exact = false, bin = false, longer = false;
 	bool lng = false, lngm = false, lngnear = false;
+	int  nmatch = 0;
 	for (int i = 0; i < s->nt; i++) {
 		const dtopic_t *t = &s->t[i];
 		if (t->len >= 60) lng = true;
 		if (d_prefix(t, b->b, b->len)) {
 			m = true;
+			nmatch++;
 			if (t->len == 0) empty = true;
 			if (t->len == b->len) exact = true;
 			if (t->len >= 60) lngm = true;
@@ -391,6 +413,7 @@ match_kind(det_t *d, const slot_t *s, const dbody_t *b, bool *matched)
 	}
 	*matched = m;
 	if (lng) d->k[K_LONG_TOPIC_DECIDE]++;
+	if (nmatch >= 2) d->k[K_MULTI_MATCH]++; // the overlap clause
 	if (m) {
 		if (empty) d->k[K_EMPTYTOPIC]++;
 		if (exact) d->k[K_EXACT]++;
@@ -603,6 +626,7 @@ m_arrive(det_t *d, int id)
 			d->k[K_DELIVER]++;
 			out = "queued";
 		}
+		if (s->j.is_sock && m && strcmp(out, "drop-new") != 0) d->k[K_DELIVER_SOCK]++;
 		vf_class("arrive/%s/topics-%s/match-%s/fill-%s/prefnew-%d/%s",
 		    s->j.is_sock ? "sock" : "ctx", ntcls(s->nt), mk,
 		    out[0] == 'd' ? "full" : fillcls(s), s->prefnew, out);
@@ -633,6 +657,23 @@ z_recv(det_t *d, const subj *j, int ms, nng_msg **mp)
 				fprintf(stderr, "note: receive with %d ms time-out returned ETIMEDOUT after %llu ms (case %ld)\n",
 				    ms, (unsigned long long) el, vf_case_index());
 			}
+			continue;
+		}
+		return rv;
+	}
+}
+
+// blocking receive on a socket whose RECVTIMEO is 'ms'; a time-out that comes
+// long before its deadline is the known aio expiry defect (C02): ask again
+static int
+m_recv(nng_socket s, int ms, nng_msg **mp)
+{
+	for (;;) {
+		uint64_t t0 = vf_now_ns();
+		int      rv = nng_recvmsg(s, mp, 0);
+		uint64_t el = (vf_now_ns() - t0) / 1000000;
+		if (rv == NNG_ETIMEDOUT && el + 1 < (uint64_t) ms / 2) {
+			premature_timeouts++;
 			continue;
 		}
 		return rv;
@@ -672,6 +713,7 @@ det_publish(det_t *d, int pi, const dbody_t *b)
 	d->k[K_PUB]++;
 	if (b->len > 65536) {
 		d->k[K_BIG_BODY]++;
+		if (d->tran == VF_T_TCP) d->k[K_BIG_BODY_TCP]++;
 	} else if (b->len >= 60) {
 		d->k[K_LONG_BODY]++;
 	}
@@ -699,6 +741,32 @@ det_publish(det_t *d, int pi, const dbody_t *b)
 			vf_harness_fail("library did not quiesce after publish");
 		}
 		d->k[K_QUIESCE_LIN]++;
+	}
+	if (d->mirror) {
+		// the publisher's second pipe: the mirror reads in lock-step, so its
+		// pipe never holds more than one queued message and nothing may be
+		// dropped for it, whatever happens on the other pipe
+		nng_msg *m = NULL;
+		if ((rv = m_recv(d->msub, 10000, &m)) != 0) {
+			det_violation(d, "C05/pub-fanout/not-delivered-to-second-subscriber",
+			    "a second SUB socket subscribed to \"\" (read in lock-step) did not get %s within 10 s over %s: %s",
+			    hx(b->b, b->len), vf_tran_names[d->tran], nng_strerror(rv));
+			return false;
+		}
+		bool same = nng_msg_len(m) == b->len &&
+		    memcmp(nng_msg_body(m), b->b, b->len) == 0;
+		if (!same) {
+			det_violation(d, "C05/pub-fanout/second-subscriber-got-other-bytes",
+			    "published %s, the second SUB socket received %s", hx(b->b, b->len),
+			    hx(nng_msg_body(m), nng_msg_len(m)));
+		}
+		// a received message belongs to the receiver: scribble over it.  If
+		// the two subscribers were handed one shared body, the comparisons
+		// of the socket under test see the damage.
+		memset(nng_msg_body(m), 0x5a, nng_msg_len(m));
+		nng_msg_free(m);
+		if (!same) return false;
+		d->k[K_MIRROR]++;
 	}
 	m_arrive(d, id);
 	det_settle_async(d);
@@ -1050,6 +1118,13 @@ det_connect(det_t *d, int pi)
 	// some other process on this machine that reaches our ephemeral tcp
 	// port can then only become one more subscriber, never a publisher
 	// feeding foreign messages into the socket under test.
+	if (d->mirror && (rv = vf_connect(d->pub[pi], d->msub, d->tran)) != 0) {
+		abandoned_connect++;
+		d->failed = true;
+		fprintf(stderr, "note: case %ld abandoned, mirror connect over %s: %s\n", vf_case_index(),
+		    vf_tran_names[d->tran], nng_strerror(rv));
+		return false;
+	}
 	if ((rv = vf_connect(d->pub[pi], d->sub, d->tran)) != 0) {
 		// not a PUB/SUB matter (C14 owns connection establishment)
 		abandoned_connect++;
@@ -1067,14 +1142,28 @@ det_connect(det_t *d, int pi)
 	}
 	uint64_t t0 = vf_now_ns();
 	long     probes = 0;
-	while (!up && vf_now_ns() - t0 < 20000000000ULL) {
+	bool     mup = !d->mirror;
+	if (d->mirror) nng_socket_set_ms(d->msub, NNG_OPT_RECVTIMEO, 25);
+	while (!(up && mup) && vf_now_ns() - t0 < 20000000000ULL) {
 		nng_msg *m = NULL;
 		if (raw_publish(d->pub[pi], probe, 3, 0) != 0) vf_harness_fail("probe send");
 		probes++;
-		if (z_recv(d, &j, 25, &m) == 0) {
+		if (!up && z_recv(d, &j, 25, &m) == 0) {
 			up = nng_msg_len(m) == 3 && memcmp(nng_msg_body(m), probe, 3) == 0;
 			nng_msg_free(m);
 		}
+		// (once 'up', the 25 ms receive of the mirror paces the loop)
+		while (!mup && nng_recvmsg(d->msub, &m, up ? 0 : NNG_FLAG_NONBLOCK) == 0) {
+			mup = nng_msg_len(m) == 3 && memcmp(nng_msg_body(m), probe, 3) == 0;
+			nng_msg_free(m);
+		}
+	}
+	if (d->mirror) nng_socket_set_ms(d->msub, NNG_OPT_RECVTIMEO, 10000);
+	if (up && !mup) {
+		det_violation(d, "C05/pub-fanout/not-delivered-to-second-subscriber",
+		    "two SUB sockets connected to one PUB over %s (all sides report their pipes): the first received a probe, the second (subscribed to \"\") none of %ld messages published during 20 s",
+		    vf_tran_names[d->tran], probes);
+		return false;
 	}
 	if (!up) {
 		// both sockets report a pipe, yet nothing published during 20 s
@@ -1091,6 +1180,18 @@ det_connect(det_t *d, int pi)
 			det_violation(d, "C05/iff/not-delivered-to-empty-subscription",
 			    "a message published on a live %s pipe did not reach the subscription \"\" within 10 s",
 			    vf_tran_names[d->tran]);
+			return false;
+		}
+		bool f = nng_msg_len(m) == 3 && memcmp(nng_msg_body(m), fence, 3) == 0;
+		nng_msg_free(m);
+		if (f) break;
+	}
+	while (d->mirror) {
+		nng_msg *m = NULL;
+		if ((rv = m_recv(d->msub, 10000, &m)) != 0) {
+			det_violation(d, "C05/pub-fanout/not-delivered-to-second-subscriber",
+			    "a message published on a PUB with two live %s pipes reached the first subscriber, not the second (subscribed to \"\", buffer not full) within 10 s: %s",
+			    vf_tran_names[d->tran], nng_strerror(rv));
 			return false;
 		}
 		bool f = nng_msg_len(m) == 3 && memcmp(nng_msg_body(m), fence, 3) == 0;
@@ -1121,8 +1222,15 @@ det_case(long idx)
 	int maxctx  = d->sentinel ? (int) vf_range(r, 0, 4) : (vf_chance(r, 1, 2) ? 0 : (int) vf_range(r, 1, 3));
 	int cap0    = vf_chance(r, 4, 5) ? caps[vf_below(r, 15)] : 0;
 	bool pn0    = vf_chance(r, 1, 2);
-	vf_case_begin(idx, "det tran=%s sentinel=%d pubs=%d steps=%d maxctx=%d cap0=%d prefnew0=%d",
-	    vf_tran_names[d->tran], d->sentinel, d->npub, nsteps, maxctx, cap0, pn0);
+	{
+		// (own stream: the cases proper stay what they were before the
+		// mirror was introduced)
+		vf_rng r2;
+		vf_rng_seed(&r2, vf_seed ^ 0x6d6972726f72ULL, (uint64_t) idx);
+		d->mirror = vf_chance(&r2, 1, 4);
+	}
+	vf_case_begin(idx, "det tran=%s sentinel=%d pubs=%d steps=%d maxctx=%d cap0=%d prefnew0=%d mirror=%d",
+	    vf_tran_names[d->tran], d->sentinel, d->npub, nsteps, maxctx, cap0, pn0, d->mirror);
 
 	for (int i = 0; i < 3; i++) {
 		d->patlen[i] = (int) vf_range(r, 1, 7);
@@ -1140,6 +1248,13 @@ det_case(long idx)
 		nng_socket x = i < 0 ? d->sub : d->pub[i];
 		nng_pipe_notify(x, NNG_PIPE_EV_ADD_POST, pipe_cb, NULL);
 		nng_pipe_notify(x, NNG_PIPE_EV_REM_POST, pipe_cb, NULL);
+	}
+	if (d->mirror) {
+		if (nng_sub0_open(&d->msub) != 0) vf_harness_fail("mirror open");
+		if (nng_sub0_socket_subscribe(d->msub, "", 0) != 0) vf_harness_fail("mirror subscribe");
+		nng_socket_set_ms(d->msub, NNG_OPT_RECVTIMEO, 10000);
+		nng_pipe_notify(d->msub, NNG_PIPE_EV_ADD_POST, pipe_cb, NULL);
+		nng_pipe_notify(d->msub, NNG_PIPE_EV_REM_POST, pipe_cb, NULL);
 	}
 	if (nng_aio_alloc(&d->zaio, NULL, NULL) != 0) vf_harness_fail("aio");
 	if (d->sentinel) {
@@ -1292,6 +1407,7 @@ det_case(long idx)
 	// the dialing side closes first: TIME_WAIT then sits on the dialer's
 	// port, and the listeners' ephemeral ports are free again at once
 	nng_socket_close(d->sub);
+	if (d->mirror) nng_socket_close(d->msub);
 	for (int i = 0; i < d->npub; i++) nng_socket_close(d->pub[i]);
 	nng_aio_free(d->zaio);
 	for (int i = 0; i < K_N; i++) {
@@ -1299,6 +1415,11 @@ det_case(long idx)
 	}
 	vf_stat("compared", d->k[K_CMP_MSG] + d->k[K_CMP_EAGAIN]);
 	vf_stat(d->tran == VF_T_TCP ? "cases_tcp" : "cases_inproc", 1);
+	if (d->npub == 2) vf_stat("det_cases_two_publishers", 1);
+	if (d->mirror && d->k[K_MIRROR]) {
+		vf_stat(d->tran == VF_T_TCP ? "det_cases_with_mirror_tcp" : "det_cases_with_mirror_inproc", 1);
+		vf_class("det/mirror/%s/pubs-%d/%s", vf_tran_names[d->tran], d->npub, d->sentinel ? "sentinel" : "quiesce");
+	}
 	vf_stat("cases", 1);
 	if ((idx % 16) == 0) {
 		vf_sample("{\"mode\":\"det\",\"tran\":\"%s\",\"sentinel\":%d,\"publishers\":%d,\"steps\":%d,\"publishes\":%ld,\"compared\":%ld,\"overflow_new\":%ld,\"overflow_old\":%ld,\"purged\":%ld,\"last_body\":\"%s\"}",
@@ -1373,9 +1494,19 @@ struct conc {
 	int        w2n;
 	char       w2_fail[300];
 	char       w2_key[96];
+	bool       w2_unjudged; // cross-publisher order differed from W1's
+	// W3 (see c_w3_thread / c_w3_churn_thread)
+	nng_ctx    w3;
+	atomic_int w1n, w3n, w3_done;
+	char       w3_fail[300];
+	char       w3_key[96];
+	long       w3_ops, w3_unsubs, w3_unsubs_nonempty, w3_premature;
+	char       w3c_fail[200];
+	char       w3c_key[96];
 };
 
 static long sock_stat(nng_socket s, const char *name);
+static long witness_cases, w2_unjudged_cases;
 
 static void
 c_body(uint64_t key, int pub, int seq, body_t *b)
@@ -1673,6 +1804,7 @@ c_w1_thread(void *arg)
 		c->arr[c->narr].pub  = (uint8_t) pub;
 		c->arr[c->narr].seq  = seq;
 		c->narr++;
+		atomic_store(&c->w1n, c->narr);
 	}
 	atomic_store(&c->all_arrived, c->narr == c->total ? 1 : 2);
 	return NULL;
@@ -1713,6 +1845,123 @@ c_w2_thread(void *arg)
 		// empty.  Once W1 has seen everything nothing more can arrive.
 		if (phase != 0) break;
 		vf_usleep((int) vf_range(&r, 20, 600));
+	}
+	return NULL;
+}
+
+// W3: subscribed to "" for the whole case like W1, RECVBUF always larger than
+// the traffic - but a second thread keeps subscribing / unsubscribing other
+// topics (every unsubscribe re-filters the queued messages; all of them still
+// match ""), toggles PREFNEW (irrelevant while the buffer is not full) and
+// switches RECVBUF between two values that both exceed everything published.
+// None of that may lose, duplicate or reorder anything: same oracle as W1.
+static void *
+c_w3_thread(void *arg)
+{
+	conc_t *c = arg;
+	long    last[2] = { -1, -1 };
+	int     n = 0;
+	vf_rng  r;
+	vf_rng_seed(&r, c->key, 778);
+	while (n < c->total) {
+		nng_msg *m  = NULL;
+		uint64_t t0 = vf_now_ns();
+		int      rv = nng_ctx_recvmsg(c->w3, &m, 0); // RECVTIMEO 20 s
+		if (rv == NNG_ETIMEDOUT && (vf_now_ns() - t0) / 1000000 < 9000) {
+			c->w3_premature++; // known aio expiry defect (C02), not ours
+			continue;
+		}
+		if (rv != 0) {
+			snprintf(c->w3_key, sizeof(c->w3_key), rv == NNG_ETIMEDOUT ? "C05/conc/lost-with-room/churned-context" : "C05/conc/recv-error");
+			snprintf(c->w3_fail, sizeof(c->w3_fail),
+			    "context subscribed to \"\" (RECVBUF >= 4096, other topics / PREFNEW / RECVBUF changing meanwhile) got %d of %d messages (next expected: publisher 0 #%ld, publisher 1 #%ld), then a blocking receive returned %s",
+			    n, c->total, last[0] + 1, last[1] + 1, nng_strerror(rv));
+			break;
+		}
+		const uint8_t *b   = nng_msg_body(m);
+		size_t         len = nng_msg_len(m);
+		body_t         want;
+		int            pub = len >= 3 ? b[len - 3] - 0xe0 : -1;
+		int            seq = len >= 3 ? (b[len - 2] << 8) | b[len - 1] : -1;
+		if (pub < 0 || pub > 1 || seq >= c->nmsgs[pub]) {
+			snprintf(c->w3_key, sizeof(c->w3_key), "C05/conc/altered");
+			snprintf(c->w3_fail, sizeof(c->w3_fail), "churned witness received %s which no publisher sent", hx(b, len));
+			nng_msg_free(m);
+			break;
+		}
+		c_body(c->key, pub, seq, &want);
+		if (want.len != len || memcmp(want.b, b, len) != 0) {
+			snprintf(c->w3_key, sizeof(c->w3_key), "C05/conc/altered");
+			snprintf(c->w3_fail, sizeof(c->w3_fail), "publisher %d message %d arrived as %s at the churned witness", pub, seq, hx(b, len));
+			nng_msg_free(m);
+			break;
+		}
+		nng_msg_free(m);
+		if (seq != last[pub] + 1) {
+			snprintf(c->w3_key, sizeof(c->w3_key), seq > last[pub] ? "C05/conc/lost-with-room/churned-context"
+			        : seq == last[pub]                                  ? "C05/conc/duplicate/churned-context"
+			                                                            : "C05/conc/reordered/churned-context");
+			snprintf(c->w3_fail, sizeof(c->w3_fail),
+			    "context subscribed to \"\" throughout (RECVBUF >= 4096 = never full; topics a/b/ab subscribed and unsubscribed, PREFNEW and RECVBUF changed meanwhile): after message %ld of publisher %d came message %d",
+			    last[pub], pub, seq);
+			break;
+		}
+		last[pub] = seq;
+		n++;
+		atomic_store(&c->w3n, n);
+		// lag behind now and then, so that unsubscribes meet a filled queue
+		if (vf_chance(&r, 1, 24)) vf_usleep((int) vf_range(&r, 300, 2500));
+	}
+	atomic_store(&c->w3_done, 1);
+	return NULL;
+}
+
+static void *
+c_w3_churn_thread(void *arg)
+{
+	conc_t *c = arg;
+	vf_rng  r;
+	static const char *tp[3] = { "a", "b", "ab" };
+	bool    have[3] = { false, false, false };
+	bool    big = true, pn = true;
+	vf_rng_seed(&r, c->key, 779);
+	while (!atomic_load(&c->w3_done) && !c->w3c_fail[0]) {
+		uint32_t op = vf_below(&r, 10);
+		int      t  = (int) vf_below(&r, 3), rv = 0;
+		if (op < 3) {
+			rv = nng_sub0_ctx_subscribe(c->w3, tp[t], strlen(tp[t]));
+			if (rv != 0) {
+				snprintf(c->w3c_key, sizeof(c->w3c_key), "C05/subscribe/error");
+				snprintf(c->w3c_fail, sizeof(c->w3c_fail), "subscribe %s: %s", tp[t], nng_strerror(rv));
+			}
+			have[t] = true;
+		} else if (op < 7) {
+			// (W1 has seen w1n arrivals; every one of them was offered to all
+			// contexts under the same lock before W1 could receive it)
+			int backlog = atomic_load(&c->w1n) - atomic_load(&c->w3n);
+			rv          = nng_sub0_ctx_unsubscribe(c->w3, tp[t], strlen(tp[t]));
+			if (have[t] && rv != 0) {
+				snprintf(c->w3c_key, sizeof(c->w3c_key), "C05/unsubscribe/error-on-current-topic");
+				snprintf(c->w3c_fail, sizeof(c->w3c_fail), "unsubscribe of current topic %s: %s", tp[t], nng_strerror(rv));
+			}
+			if (have[t]) {
+				c->w3_unsubs++;
+				if (backlog >= 2) c->w3_unsubs_nonempty++;
+			}
+			have[t] = false;
+		} else if (op < 8) {
+			pn = !pn;
+			rv = nng_ctx_set_bool(c->w3, NNG_OPT_SUB_PREFNEW, pn);
+		} else {
+			big = !big;
+			rv  = nng_ctx_set_int(c->w3, NNG_OPT_RECVBUF, big ? 8192 : 4096);
+			if (rv != 0) {
+				snprintf(c->w3c_key, sizeof(c->w3c_key), "C05/recvbuf/error");
+				snprintf(c->w3c_fail, sizeof(c->w3c_fail), "set RECVBUF %d: %s", big ? 8192 : 4096, nng_strerror(rv));
+			}
+		}
+		c->w3_ops++;
+		vf_usleep((int) vf_range(&r, 10, 300));
 	}
 	return NULL;
 }
@@ -1776,6 +2025,7 @@ c_judge_w2(conc_t *c, long *drops_judged)
 					return;
 				}
 			}
+			c->w2_unjudged = true;
 			return; // FIFO premise of the drop analysis not given: not judged
 		}
 		prev = i;
@@ -1838,7 +2088,7 @@ conc_case(long idx)
 {
 	conc_t   *c = calloc(1, sizeof(*c));
 	vf_rng    r;
-	pthread_t pt[2], st[4], set, wt1, wt2;
+	pthread_t pt[2], st[4], set, wt1, wt2, wt3, wt3c;
 	cpub_t    cp[2];
 	int       rv;
 	long      disc0[2] = { 0, 0 };
@@ -1874,6 +2124,8 @@ conc_case(long idx)
 		    nng_ctx_set_bool(c->w2, NNG_OPT_SUB_PREFNEW, c->w2_prefnew) != 0) {
 			vf_harness_fail("witness options");
 		}
+		if (nng_ctx_open(&c->w3, c->sub) != 0 || nng_ctx_set_int(c->w3, NNG_OPT_RECVBUF, 8192) != 0) vf_harness_fail("witness 3");
+		nng_ctx_set_ms(c->w3, NNG_OPT_RECVTIMEO, 20000);
 	}
 	for (int i = 0; i < 2; i++) {
 		if (nng_pub0_open(&c->pub[i]) != 0) vf_harness_fail("pub open");
@@ -1917,6 +2169,7 @@ conc_case(long idx)
 		}
 	}
 	if (c->witnesses && nng_sub0_ctx_subscribe(c->w2, c->w2_topic.b, c->w2_topic.len) != 0) vf_harness_fail("witness subscribe");
+	if (c->witnesses && nng_sub0_ctx_subscribe(c->w3, "", 0) != 0) vf_harness_fail("witness 3 subscribe");
 	for (int i = 0; i < c->nsub; i++) {
 		csub_t *s = &c->cs[i];
 		s->c      = c;
@@ -1938,6 +2191,8 @@ conc_case(long idx)
 	if (wit) {
 		pthread_create(&wt1, NULL, c_w1_thread, c);
 		pthread_create(&wt2, NULL, c_w2_thread, c);
+		pthread_create(&wt3, NULL, c_w3_thread, c);
+		pthread_create(&wt3c, NULL, c_w3_churn_thread, c);
 	}
 	for (int i = 0; i < c->nsub; i++) pthread_create(&st[i], NULL, c_sub_thread, &c->cs[i]);
 	pthread_create(&set, NULL, c_setter_thread, c);
@@ -1952,6 +2207,8 @@ conc_case(long idx)
 		// W1 ends when it has everything (or 20 s after the last message)
 		pthread_join(wt1, NULL);
 		pthread_join(wt2, NULL);
+		pthread_join(wt3, NULL);
+		pthread_join(wt3c, NULL);
 	} else {
 		vf_quiesce(1, 5000);
 	}
@@ -1974,16 +2231,42 @@ conc_case(long idx)
 			long dj = 0;
 			if (!c->w2_fail[0]) c_judge_w2(c, &dj);
 			if (c->w2_fail[0]) vf_violation(c->w2_key, "%s", c->w2_fail);
+			if (c->w3_fail[0]) vf_violation(c->w3_key, "%s", c->w3_fail);
+			if (c->w3c_fail[0]) vf_violation(c->w3c_key, "%s", c->w3c_fail);
 			vf_stat("witness_cases_complete", 1);
+			if (c->tran == VF_T_TCP) vf_stat("witness_cases_complete_tcp", 1);
 			vf_stat("witness_messages_all_received", c->narr);
 			vf_stat("witness2_received", c->w2n);
+			if (c->w2_unjudged) {
+				// the single-drop oracle was off for this case
+				w2_unjudged_cases++;
+				vf_stat("witness2_order_premise_failed", 1);
+				dj = 0;
+			}
 			vf_stat("witness2_drops_judged", dj);
+			vf_stat(c->w2_prefnew ? "witness2_drops_judged_prefnew_1" : "witness2_drops_judged_prefnew_0", dj);
+			if (!c->w3_fail[0]) {
+				vf_stat("witness3_all_received", atomic_load(&c->w3n));
+				vf_stat("witness3_churn_ops", c->w3_ops);
+				vf_stat("witness3_unsubscribes", c->w3_unsubs);
+				vf_stat("witness3_unsubs_on_nonempty_queue", c->w3_unsubs_nonempty);
+				vf_stat("compared", atomic_load(&c->w3n));
+			}
+			if (c->w3_premature) vf_stat("premature_aio_timeouts_tolerated", c->w3_premature);
+			witness_cases++;
 			vf_stat("compared", c->narr + c->w2n);
 			vf_class("witness/%s/topic-%s/cap-%d/prefnew-%d/%s", vf_tran_names[c->tran], c->w2_topic.len ? "one-byte" : "empty",
 			    c->w2_cap, c->w2_prefnew, dj ? "drops" : "no-drops");
 		}
 		nng_ctx_close(c->w1);
 		nng_ctx_close(c->w2);
+		nng_ctx_close(c->w3);
+	} else {
+		// how often the publishers' own queues overflowed in the cases
+		// that run with the default SENDBUF (evidence only)
+		long disc = 0;
+		for (int i = 0; i < 2; i++) disc += sock_stat(c->pub[i], "tx_discard");
+		vf_stat("conc_pub_discards", disc > 0 ? disc : 0);
 	}
 	atomic_store(&g_closing, 1);
 
@@ -2013,6 +2296,10 @@ conc_case(long idx)
 	vf_stat("conc_published", c->nmsgs[0] + c->nmsgs[1]);
 	vf_stat("conc_setter_ops", c->setter_ops);
 	vf_stat("compared", rec);
+	if (c->tran == VF_T_TCP) {
+		vf_stat("conc_cases_tcp", 1);
+		vf_stat("conc_received_checked_tcp", rec);
+	}
 	vf_stat("cases", 1);
 	vf_class("conc/%s/subs-%d/%s/%s", vf_tran_names[c->tran], c->nsub, use_sock ? "socket+ctx" : "ctx-only",
 	    ovl ? "overlap" : "no-overlap");
@@ -2042,49 +2329,232 @@ sock_stat(nng_socket s, const char *name)
 	return v;
 }
 
+// Messages of this mode: a 24 byte header (magic, kind, sequence number,
+// length, check) and one fill byte derived from the sequence number.
+#define NB_HDR 24
+
+static void
+nb_make(uint8_t *b, size_t len, char kind, uint64_t seq)
+{
+	memcpy(b, "C05N", 4);
+	b[4] = (uint8_t) kind;
+	b[5] = b[6] = b[7] = 0;
+	for (int i = 0; i < 8; i++) b[8 + i] = (uint8_t) (seq >> (56 - 8 * i));
+	for (int i = 0; i < 4; i++) b[16 + i] = (uint8_t) ((uint32_t) len >> (24 - 8 * i));
+	for (int i = 0; i < 4; i++) b[20 + i] = (uint8_t) ~b[12 + i];
+	if (len > NB_HDR) memset(b + NB_HDR, (int) (0x61 + seq % 23), len - NB_HDR);
+}
+
+// 0: intact (kind and seq set); < 0: these bytes were never sent
+static int
+nb_check(const uint8_t *b, size_t len, char *kind, uint64_t *seq)
+{
+	uint64_t s = 0;
+	uint32_t l = 0;
+	if (len < NB_HDR || memcmp(b, "C05N", 4) != 0) return -1;
+	if ((b[4] != 'P' && b[4] != 'F' && b[4] != 'D') || b[5] || b[6] || b[7]) return -2;
+	for (int i = 0; i < 8; i++) s = (s << 8) | b[8 + i];
+	for (int i = 0; i < 4; i++) l = (l << 8) | b[16 + i];
+	for (int i = 0; i < 4; i++) {
+		if (b[20 + i] != (uint8_t) ~b[12 + i]) return -3;
+	}
+	if (l != len) return -4;
+	if (len > NB_HDR) {
+		if (b[NB_HDR] != (uint8_t) (0x61 + s % 23)) return -5;
+		if (len > NB_HDR + 1 && memcmp(b + NB_HDR, b + NB_HDR + 1, len - NB_HDR - 1) != 0) return -6;
+	}
+	*kind = (char) b[4];
+	*seq  = s;
+	return 0;
+}
+
+// one send; form 0,1 blocking  2 NONBLOCK  3 aio
+static int
+nb_send(nng_socket pub, nng_aio *saio, int form, size_t len, char kind, uint64_t seq, uint64_t *dt)
+{
+	nng_msg *m;
+	int      rv;
+	if (nng_msg_alloc(&m, len) != 0) vf_harness_fail("alloc");
+	nb_make(nng_msg_body(m), len, kind, seq);
+	uint64_t t0 = vf_now_ns();
+	if (form == 3) {
+		nng_aio_set_msg(saio, m);
+		nng_socket_send(pub, saio);
+		nng_aio_wait(saio);
+		rv = (int) nng_aio_result(saio);
+	} else {
+		rv = nng_sendmsg(pub, m, form == 2 ? NNG_FLAG_NONBLOCK : 0);
+	}
+	if (dt != NULL) *dt = vf_now_ns() - t0;
+	if (rv != 0) nng_msg_free(m);
+	return rv;
+}
+
+static const char *
+nb_form(int form)
+{
+	return form == 2 ? "-nonblock" : form == 3 ? "-aio" : "";
+}
+
+// healthy subscribers: nng SUB sockets subscribed to "" that receive every
+// message in lock-step with the sends
+typedef struct {
+	nng_socket s;
+	int        tran;
+} nb_sub;
+
+// The lock-step receive after a send.  false: stop (violation or the pipe of
+// a healthy subscriber went away = not judged).
+static bool
+nb_expect(nb_sub *h, char kind, uint64_t seq, size_t len, int sendbuf, long discards, int nstuck, bool *lost_pipe)
+{
+	nng_msg *m = NULL;
+	char     key[128];
+	int      rv = m_recv(h->s, 10000, &m);
+	if (atomic_load(&g_pipe_rem) > 0) {
+		if (rv == 0) nng_msg_free(m);
+		*lost_pipe = true;
+		return false;
+	}
+	if (rv != 0) {
+		snprintf(key, sizeof(key), "C05/pub-fanout/reading-subscriber-missed-message/%s/%s", vf_tran_names[h->tran],
+		    discards > 0 ? "other-pipes-stuck" : "no-pipe-stuck");
+		vf_violation(key,
+		    "PUB (SENDBUF %d) with %d raw TCP subscribers that never read (%ld queue overflows so far) and an nng SUB over %s subscribed to \"\" that receives every message before the next one is sent: message #%llu never came, blocking receive: %s",
+		    sendbuf, nstuck, discards, vf_tran_names[h->tran], (unsigned long long) seq, nng_strerror(rv));
+		return false;
+	}
+	char     gk  = 0;
+	uint64_t gs  = 0;
+	int      chk = nb_check(nng_msg_body(m), nng_msg_len(m), &gk, &gs);
+	if (chk != 0 || (gk == kind && gs == seq && nng_msg_len(m) != len)) {
+		snprintf(key, sizeof(key), "C05/pub-fanout/altered/%s", vf_tran_names[h->tran]);
+		vf_violation(key, "message #%llu (%zu bytes) reached the reading subscriber over %s as %zu bytes that were never sent (check %d): %s",
+		    (unsigned long long) seq, len, vf_tran_names[h->tran], nng_msg_len(m), chk, hx(nng_msg_body(m), nng_msg_len(m)));
+		nng_msg_free(m);
+		return false;
+	}
+	if (gk != kind || gs != seq) {
+		snprintf(key, sizeof(key), "C05/pub-fanout/%s/%s", gk == kind && gs < seq ? "duplicate-or-reordered" : "wrong-message", vf_tran_names[h->tran]);
+		vf_violation(key, "reading subscriber over %s: expected message %c#%llu (the only one outstanding), received %c#%llu",
+		    vf_tran_names[h->tran], kind, (unsigned long long) seq, gk, (unsigned long long) gs);
+		nng_msg_free(m);
+		return false;
+	}
+	// the message is ours now: if another subscriber was handed the same
+	// body it will see this
+	memset(nng_msg_body(m), 0x5a, nng_msg_len(m));
+	nng_msg_free(m);
+	return true;
+}
+
+static void
+nb_send_violation(int rv, int form, const char *where, const char *fmt, ...)
+{
+	char    key[128], msg[400];
+	va_list ap;
+	va_start(ap, fmt);
+	vsnprintf(msg, sizeof(msg), fmt, ap);
+	va_end(ap);
+	snprintf(key, sizeof(key), "C05/pub-blocks/%s%s/%s", ename(rv), nb_form(form), where);
+	vf_violation(key, "%s returned %s: %s", form == 3 ? "nng_socket_send" : "nng_sendmsg", nng_strerror(rv), msg);
+}
+
+// pipes of the publisher that were started / have been removed
+static _Atomic int g_pub_add, g_pub_rem;
+
+static void
+nb_pub_pipe_cb(nng_pipe p, nng_pipe_ev ev, void *arg)
+{
+	(void) p;
+	(void) arg;
+	if (ev == NNG_PIPE_EV_ADD_POST) atomic_fetch_add(&g_pub_add, 1);
+	if (ev == NNG_PIPE_EV_REM_POST) atomic_fetch_add(&g_pub_rem, 1);
+}
+
 static void
 noblock_case(long idx)
 {
 	static const int sbufs[3] = { 1, 2, 16 };
 	static const size_t sizes[4] = { 4096, 32768, 65536, 262144 };
-	vf_rng     r;
+	vf_rng     r, r2;
 	nng_socket pub, lazy;
 	int        fds[3], nfd, rv;
 	bool       have_lazy;
+	nb_sub     hs[2];
+	int        nh;
 
 	vf_rng_seed(&r, vf_seed, (uint64_t) idx);
+	vf_rng_seed(&r2, vf_seed ^ 0x66616e6f7574ULL, (uint64_t) idx);
 	int    sendbuf = sbufs[vf_below(&r, 3)];
 	size_t msz     = sizes[vf_below(&r, 4)];
 	bool   dialout = vf_chance(&r, 1, 2);
 	nfd            = (int) vf_range(&r, 1, 3);
 	have_lazy      = vf_chance(&r, 1, 2);
-	vf_case_begin(idx, "noblock sendbuf=%d msgsize=%zu peers=%d pub-%s lazy-nng-sub=%d", sendbuf, msz, nfd,
-	    dialout ? "dials" : "listens", have_lazy);
+	// reading subscribers: none (1/5), one, or two (then the publisher has
+	// two healthy pipes; two inproc ones share the message body by reference)
+	nh = vf_chance(&r2, 1, 5) ? 0 : (int) vf_range(&r2, 1, 2);
+	for (int i = 0; i < 2; i++) hs[i].tran = vf_chance(&r2, 1, 2) ? VF_T_INPROC : VF_T_TCP;
+	if (nh == 2 && vf_chance(&r2, 1, 3)) hs[0].tran = hs[1].tran = VF_T_INPROC;
+	// one stuck peer goes away in mid-stream: the first one (the head of the
+	// publisher's pipe list); the last one is read out at the end
+	bool close_plan = nfd >= 2 ? vf_chance(&r2, 2, 3) : vf_chance(&r2, 1, 4);
+	int  victim = 0, di = nfd - 1;
+	vf_case_begin(idx, "noblock sendbuf=%d msgsize=%zu peers=%d pub-%s lazy-nng-sub=%d reading-subs=%d(%s,%s) close-in-mid-stream=%d", sendbuf, msz, nfd,
+	    dialout ? "dials" : "listens", have_lazy, nh, vf_tran_names[hs[0].tran], vf_tran_names[hs[1].tran], close_plan);
 	if (nng_pub0_open(&pub) != 0) vf_harness_fail("pub open");
 	if ((rv = nng_socket_set_int(pub, NNG_OPT_SENDBUF, sendbuf)) != 0) vf_harness_fail("SENDBUF: %s", nng_strerror(rv));
 	nng_socket_set_ms(pub, NNG_OPT_SENDTIMEO, 10000);
+	atomic_store(&g_pub_add, 0);
+	atomic_store(&g_pub_rem, 0);
+	nng_pipe_notify(pub, NNG_PIPE_EV_ADD_POST, nb_pub_pipe_cb, NULL);
+	nng_pipe_notify(pub, NNG_PIPE_EV_REM_POST, nb_pub_pipe_cb, NULL);
+	atomic_store(&g_closing, 0);
+	atomic_store(&g_pipe_add, 0);
+	atomic_store(&g_pipe_rem, 0);
+
+	nng_aio *saio;
+	if (nng_aio_alloc(&saio, NULL, NULL) != 0) vf_harness_fail("aio");
+	nng_aio_set_timeout(saio, 10000);
 
 	uint16_t     port = 0;
 	nng_listener l;
 	char         url[64], durl[64];
 	int          lfd = -1;
+	bool         bad = false;
 	if (!dialout) {
 		if ((rv = nng_listen(pub, "tcp://127.0.0.1:0", &l, 0)) != 0) vf_harness_fail("listen: %s", nng_strerror(rv));
 		if (vf_dial_url(l, VF_T_TCP, "tcp://127.0.0.1:0", durl, sizeof(durl)) != 0) vf_harness_fail("port");
 		port = (uint16_t) atoi(strrchr(durl, ':') + 1);
 	} else {
-		int small = 4096;
 		if ((lfd = vf_tcp_listen(&port)) < 0) vf_harness_fail("raw listen");
-		setsockopt(lfd, SOL_SOCKET, SO_RCVBUF, &small, sizeof(small));
 		snprintf(url, sizeof(url), "tcp://127.0.0.1:%u", port);
+	}
+	// a PUB nobody is connected to: every form of send returns 0 at once
+	for (int k = 0; k < 8 && !bad; k++) {
+		int form = k % 4;
+		if ((rv = nb_send(pub, saio, form, (k & 4) ? msz : NB_HDR, 'P', (uint64_t) k, NULL)) != 0) {
+			nb_send_violation(rv, form, "no-pipe", "send #%d on a PUB (SENDBUF %d) that has no pipe yet", k, sendbuf);
+			bad = true;
+		} else {
+			vf_stat("noblock_sends_without_pipe", 1);
+			vf_stat("compared", 1);
+		}
 	}
 	for (int i = 0; i < nfd; i++) {
 		uint16_t peer = 0;
+		// Small receive buffers, so that the pipes are stuck soon.  The last
+		// peer is read out at the end: its buffer must exceed the loopback
+		// MSS (64 KB), else the window never opens far enough for a full
+		// segment and what is left trickles in at the pace of the persist
+		// timer.  (The listener's buffer size at SYN time fixes the window
+		// scale of a connection it accepts.)
+		int small = i == di ? 262144 : 4096;
 		if (!dialout) {
-			int small = 4096;
 			fds[i]    = vf_tcp_connect(port, 5000);
 			if (fds[i] >= 0) setsockopt(fds[i], SOL_SOCKET, SO_RCVBUF, &small, sizeof(small));
 		} else {
+			setsockopt(lfd, SOL_SOCKET, SO_RCVBUF, &small, sizeof(small));
 			if ((rv = nng_dial(pub, url, NULL, NNG_FLAG_NONBLOCK)) != 0) vf_harness_fail("dial: %s", nng_strerror(rv));
 			fds[i] = vf_tcp_accept(lfd, 5000);
 		}
@@ -2107,53 +2577,119 @@ noblock_case(long idx)
 		nng_sub0_socket_subscribe(lazy, "", 0);
 		if ((rv = vf_connect(pub, lazy, VF_T_INPROC)) != 0) vf_harness_fail("lazy connect: %s", nng_strerror(rv));
 	}
-	for (int i = 0; i < 5000 && vf_pipe_count(pub) < nfd + (have_lazy ? 1 : 0); i++) vf_msleep(1);
-	if (vf_pipe_count(pub) < nfd + (have_lazy ? 1 : 0)) vf_harness_fail("pipes did not come up");
+	for (int i = 0; i < nh; i++) {
+		if (nng_sub0_open(&hs[i].s) != 0) vf_harness_fail("sub open");
+		nng_socket_set_int(hs[i].s, NNG_OPT_RECVBUF, (int) vf_range(&r2, 2, 8));
+		nng_socket_set_ms(hs[i].s, NNG_OPT_RECVTIMEO, 25);
+		nng_sub0_socket_subscribe(hs[i].s, "", 0);
+		nng_pipe_notify(hs[i].s, NNG_PIPE_EV_REM_POST, pipe_cb, NULL);
+		if ((rv = vf_connect(pub, hs[i].s, hs[i].tran)) != 0) vf_harness_fail("reading subscriber connect: %s", nng_strerror(rv));
+	}
+	int want_pipes = nfd + (have_lazy ? 1 : 0) + nh;
+	for (int i = 0; i < 5000 && vf_pipe_count(pub) < want_pipes; i++) vf_msleep(1);
+	if (vf_pipe_count(pub) < want_pipes) vf_harness_fail("pipes did not come up");
+
+	bool lost_pipe = false;
+	if (nh > 0 && !bad) {
+		// pipes are reported before the protocols have started them: publish
+		// probes until each reading subscriber has seen one, then a fence
+		bool     up[2] = { false, false };
+		int      nup = 0;
+		long     probes = 0;
+		uint64_t t0 = vf_now_ns();
+		while (nup < nh && !bad && vf_now_ns() - t0 < 20000000000ULL) {
+			if ((rv = nb_send(pub, saio, 0, NB_HDR, 'P', (uint64_t) (100 + probes), NULL)) != 0) {
+				nb_send_violation(rv, 0, "idle-pipes", "probe send on PUB (SENDBUF %d) with %d fresh pipes", sendbuf, want_pipes);
+				bad = true;
+			}
+			probes++;
+			for (int i = 0; i < nh; i++) {
+				nng_msg *m;
+				// (25 ms while waiting for the first one, then just empty it)
+				while (nng_recvmsg(hs[i].s, &m, up[i] ? NNG_FLAG_NONBLOCK : 0) == 0) {
+					nng_msg_free(m);
+					if (!up[i]) {
+						up[i] = true;
+						nup++;
+					}
+				}
+			}
+		}
+		for (int i = 0; i < nh; i++) nng_socket_set_ms(hs[i].s, NNG_OPT_RECVTIMEO, 10000);
+		if (nup < nh && !bad && atomic_load(&g_pipe_rem) == 0) {
+			char key[128];
+			int  i = up[0] ? 1 : 0;
+			snprintf(key, sizeof(key), "C05/pub-fanout/not-delivered-to-reading-subscriber/%s", vf_tran_names[hs[i].tran]);
+			vf_violation(key, "PUB with %d pipes (all sides report them): none of %ld small messages published during 20 s reached the nng SUB over %s subscribed to \"\"",
+			    want_pipes, probes, vf_tran_names[hs[i].tran]);
+			bad = true;
+		}
+		if (!bad && (rv = nb_send(pub, saio, 0, NB_HDR, 'F', 0, NULL)) != 0) {
+			nb_send_violation(rv, 0, "idle-pipes", "fence send on PUB (SENDBUF %d)", sendbuf);
+			bad = true;
+		}
+		for (int i = 0; i < nh && !bad; i++) {
+			for (;;) {
+				nng_msg *m = NULL;
+				if ((rv = m_recv(hs[i].s, 10000, &m)) != 0) {
+					if (atomic_load(&g_pipe_rem) == 0) {
+						char key[128];
+						snprintf(key, sizeof(key), "C05/pub-fanout/not-delivered-to-reading-subscriber/%s", vf_tran_names[hs[i].tran]);
+						vf_violation(key, "a message published after the %s pipe carried traffic did not reach the SUB subscribed to \"\" (PREFNEW, so the newest message is never the one dropped) within 10 s: %s",
+						    vf_tran_names[hs[i].tran], nng_strerror(rv));
+					}
+					bad = true;
+					break;
+				}
+				bool f = nng_msg_len(m) == NB_HDR && ((uint8_t *) nng_msg_body(m))[4] == 'F';
+				nng_msg_free(m);
+				if (f) break;
+			}
+			// the queue is empty now; either policy (never applied in lock-step)
+			nng_socket_set_bool(hs[i].s, NNG_OPT_SUB_PREFNEW, vf_chance(&r2, 1, 2));
+		}
+		if (atomic_load(&g_pipe_rem) > 0) lost_pipe = true;
+	}
 
 	// publish until the per-pipe queues have overflowed many times (the
 	// peers' socket buffers are full and the pipes are stuck), then more
-	long     sends = 0, discards = 0, after_stuck = 0;
+	long     sends = 0, discards = 0, after_stuck = 0, fan_stuck = 0, fan = 0, across_loss = 0;
 	uint64_t worst = 0;
 	size_t   budget = (size_t) 96 << 20;
-	bool     bad = false;
-	bool     resize_plan = vf_chance(&r, 1, 2), resized = false;
-	long     aio_stuck = 0;
-	nng_aio *saio;
-	if (nng_aio_alloc(&saio, NULL, NULL) != 0) vf_harness_fail("aio");
-	nng_aio_set_timeout(saio, 10000);
-	for (long i = 0; i < 20000 && !bad; i++) {
-		nng_msg *m;
-		int      form  = (int) (i % 4); // 0,1 blocking  2 NONBLOCK  3 aio
-		int      flags = form == 2 ? NNG_FLAG_NONBLOCK : 0;
-		if (nng_msg_alloc(&m, msz) != 0) vf_harness_fail("alloc");
-		memset(nng_msg_body(m), 'a', 8);
-		uint64_t t0 = vf_now_ns();
-		if (form == 3) {
-			nng_aio_set_msg(saio, m);
-			nng_socket_send(pub, saio);
-			nng_aio_wait(saio);
-			rv = (int) nng_aio_result(saio);
-		} else {
-			rv = nng_sendmsg(pub, m, flags);
-		}
-		uint64_t dt = vf_now_ns() - t0;
+	bool     resize_plan = vf_chance(&r, 1, 2), resized = false, closed_mid = false;
+	long     aio_stuck = 0, last_event = 0, resize_at = -1;
+	long     i = 0;
+	int      nstuck = nfd;
+	for (; i < 20000 && !bad; i++) {
+		int      form = (int) (i % 4); // 0,1 blocking  2 NONBLOCK  3 aio
+		uint64_t dt;
+		rv = nb_send(pub, saio, form, msz, 'D', (uint64_t) i, &dt);
 		if (dt > worst) worst = dt;
 		if (rv != 0) {
-			char key[128];
-			nng_msg_free(m);
-			snprintf(key, sizeof(key), "C05/pub-blocks/%s%s/sendbuf-%d", ename(rv), form == 2 ? "-nonblock" : form == 3 ? "-aio" : "", sendbuf);
-			vf_violation(key,
-			    "%s #%ld on PUB (SENDBUF %d%s, %d raw TCP subscribers that never read, %ld queue overflows so far) returned %s after %llu ms",
-			    form == 3 ? "nng_socket_send" : "nng_sendmsg", i, sendbuf, resized ? " changed while stuck" : "", nfd, discards,
-			    nng_strerror(rv), (unsigned long long) (dt / 1000000));
+			char where[32];
+			snprintf(where, sizeof(where), "sendbuf-%d", sendbuf);
+			nb_send_violation(rv, form, where,
+			    "send #%ld on PUB (SENDBUF %d%s, %d raw TCP subscribers that never read%s, %d reading nng subscribers, %ld queue overflows so far) after %llu ms",
+			    i, sendbuf, resized ? " changed while stuck" : "", nfd, closed_mid ? " one of which has just gone away" : "", nh, discards,
+			    (unsigned long long) (dt / 1000000));
 			bad = true;
 			break;
 		}
 		sends++;
+		for (int h = 0; h < nh && !lost_pipe && !bad; h++) {
+			if (!nb_expect(&hs[h], 'D', (uint64_t) i, msz, sendbuf, discards, nstuck, &lost_pipe)) {
+				if (!lost_pipe) bad = true;
+				break;
+			}
+			fan++;
+			if (discards > 0) fan_stuck++;
+		}
+		if (bad) break;
 		if (discards > 0) {
 			after_stuck++;
 			if (form == 3) aio_stuck++;
 		}
+		if (closed_mid) across_loss++;
 		if (resize_plan && !resized && after_stuck >= 100) {
 			// change the depth of the (full) per-pipe queues in mid-stream
 			int nb = sbufs[vf_below(&r, 3)];
@@ -2161,36 +2697,196 @@ noblock_case(long idx)
 			if (nng_socket_set_int(pub, NNG_OPT_SENDBUF, nb) == 0) {
 				vf_stat("noblock_sendbuf_changes_while_stuck", 1);
 				vf_class("noblock/sendbuf-change/%d-to-%d", sendbuf, nb);
-				sendbuf = nb;
+				sendbuf   = nb;
+				resize_at = i;
 			}
-			resized = true;
+			resized    = true;
+			last_event = i;
+		}
+		if (close_plan && !closed_mid && after_stuck >= 60) {
+			// a subscriber disappears while its pipe is stuck in a send
+			close(fds[victim]);
+			fds[victim] = -1;
+			closed_mid  = true;
+			last_event  = i;
+			nstuck--;
 		}
 		if ((i & 15) == 15) {
 			discards = sock_stat(pub, "tx_discard");
-			if (discards >= 200 * nfd && after_stuck >= 300 && (!resize_plan || resized)) break;
+			if (discards >= 200 * nfd && after_stuck >= 300 && (!resize_plan || resized) && (!close_plan || closed_mid) &&
+			    i - last_event >= 40) {
+				i++;
+				break;
+			}
 		}
-		if ((size_t) sends * msz > budget) break;
+		if ((size_t) sends * msz > budget) {
+			i++;
+			break;
+		}
 		if ((i & 63) == 0) vf_watchdog(40);
 	}
-	nng_aio_free(saio);
 	discards = sock_stat(pub, "tx_discard");
+
+	// What the publisher's own queue let through: read out the first stuck
+	// peer.  A last message is sent first; then frames are read until that
+	// one arrives.  Per pipe the publisher drops exactly one message - the
+	// oldest queued - per send while the queue is full, so: every frame is
+	// an intact message, sequence numbers strictly increase, and the last K
+	// messages sent (K = SENDBUF, less if SENDBUF changed that recently)
+	// were never the oldest of a full queue and must all arrive.
+	vf_watchdog(120);
+	if (!bad && discards > 0 && fds[di] >= 0) {
+		uint64_t marker = (uint64_t) i;
+		if ((rv = nb_send(pub, saio, 0, msz, 'D', marker, NULL)) != 0) {
+			nb_send_violation(rv, 0, "last-message", "send on PUB (SENDBUF %d) with stuck pipes", sendbuf);
+			bad = true;
+		}
+		for (int h = 0; h < nh && !lost_pipe && !bad; h++) {
+			if (!nb_expect(&hs[h], 'D', marker, msz, sendbuf, discards, nstuck, &lost_pipe) && !lost_pipe) bad = true;
+		}
+		uint8_t *buf = malloc(msz);
+		uint64_t prev = 0, tail[16];
+		long     nd = 0;
+		bool     complete = false;
+		int      K = sendbuf;
+		if (resize_at >= 0 && (long) marker - resize_at < K) K = (int) ((long) marker - resize_at);
+		if ((long) marker + 1 < K) K = (int) marker + 1;
+		if (buf == NULL) vf_harness_fail("out of memory");
+		int rem0 = atomic_load(&g_pub_rem);
+		while (!bad) {
+			long     n = vf_sp_recv_frame(fds[di], false, buf, msz, 10000);
+			char     kind = 0;
+			uint64_t seq = 0;
+			char     key[128];
+			if (n == -3) {
+				vf_violation("C05/pub-overflow/altered/frame-longer-than-any-message", "stuck raw subscriber, read out after %ld queue overflows: frame #%ld announces more than the %zu bytes of every message sent",
+				    discards, nd, msz);
+				bad = true;
+				break;
+			}
+			if (n < 0) {
+				// Nothing for 10 s.  Connection gone: not judged.  Connection
+				// there and idle: the publisher has nothing more for this
+				// pipe, so the newest message was not kept for it.
+				vf_msleep(50);
+				if (vf_fd_wait_eof(fds[di], 20) == 0 && atomic_load(&g_pub_rem) == rem0) {
+					snprintf(key, sizeof(key), "C05/pub-overflow/newest-message-not-delivered/sendbuf-%d", sendbuf);
+					vf_violation(key,
+					    "PUB SENDBUF %d, pipe stuck (%ld overflows), then read out: %ld frames up to message #%llu arrived, then nothing for 10 s on a live connection; the last message sent (#%llu, never the oldest of a full queue) is missing",
+					    sendbuf, discards, nd, (unsigned long long) prev, (unsigned long long) marker);
+					bad = true;
+				}
+				break;
+			}
+			int chk = nb_check(buf, (size_t) n, &kind, &seq);
+			if (chk != 0 || (kind == 'D' && (size_t) n != msz)) {
+				snprintf(key, sizeof(key), "C05/pub-overflow/altered/sendbuf-%d", sendbuf);
+				vf_violation(key, "stuck raw subscriber, read out after %ld queue overflows: frame #%ld (%ld bytes, after message #%llu) is not a message that was sent (check %d): %s", discards,
+				    nd, n, (unsigned long long) prev, chk, hx(buf, (size_t) n));
+				bad = true;
+				break;
+			}
+			if (kind != 'D') {
+				if (nd == 0) continue; // probes and the fence come first
+				seq = 0;               // ... and never again
+			}
+			if (nd > 0 && seq <= prev) {
+				snprintf(key, sizeof(key), "C05/pub-overflow/%s/sendbuf-%d", kind == 'D' && seq == prev ? "duplicate" : "reordered", sendbuf);
+				vf_violation(key, "stuck raw subscriber, read out after %ld queue overflows: after message #%llu came %c#%llu", discards,
+				    (unsigned long long) prev, kind, (unsigned long long) seq);
+				bad = true;
+				break;
+			}
+			prev          = seq;
+			tail[nd % 16] = seq;
+			nd++;
+			if (seq == marker) {
+				complete = true;
+				break;
+			}
+		}
+		if (complete) {
+			long have = nd < K ? nd : K;
+			for (long q = 0; q < K && !bad; q++) {
+				// q-th from the end must be marker - q
+				if (q >= have || tail[(nd - 1 - q) % 16] != marker - (uint64_t) q) {
+					char key[128];
+					snprintf(key, sizeof(key), "C05/pub-overflow/dropped-while-not-oldest-of-full-queue/sendbuf-%d", sendbuf);
+					vf_violation(key,
+					    "PUB SENDBUF %d%s, pipe stuck (%ld overflows), then read out: of the last %d messages sent (#%llu..#%llu), none of which can have been the oldest of a full queue, #%llu never arrived (%ld frames read)",
+					    sendbuf, resize_at >= 0 ? " (set while stuck)" : "", discards, K, (unsigned long long) (marker - (uint64_t) K + 1),
+					    (unsigned long long) marker, (unsigned long long) (marker - (uint64_t) q), nd);
+					bad = true;
+				}
+			}
+			vf_stat("noblock_drains_complete", 1);
+			vf_stat("noblock_frames_read_after_overflow", nd);
+			vf_stat("noblock_recent_messages_required", K);
+			vf_stat("compared", nd);
+			vf_class("noblock/read-out/sendbuf-%d/msg-%zu/%s%s", sendbuf, msz, resize_at >= 0 ? "resized" : "fixed", closed_mid ? "/other-peer-left" : "");
+		} else if (!bad) {
+			vf_stat("noblock_drains_incomplete", 1);
+		}
+		free(buf);
+	}
+
 	vf_stat("noblock_aio_sends_with_stuck_peer", aio_stuck);
 	vf_stat("noblock_sends", sends);
 	vf_stat("noblock_sends_with_stuck_peer", after_stuck);
+	vf_stat("noblock_sends_across_pipe_loss", across_loss);
 	vf_stat("noblock_queue_overflows", discards > 0 ? discards : 0);
+	vf_stat("fanout_deliveries", fan);
+	vf_stat("fanout_deliveries_with_stuck_peer", fan_stuck);
+	if (nh == 2) vf_stat(hs[0].tran == VF_T_INPROC && hs[1].tran == VF_T_INPROC ? "fanout_cases_two_inproc_readers" : "fanout_cases_two_readers_other", 1);
+	if (lost_pipe) {
+		abandoned_pipe_lost++;
+		fprintf(stderr, "note: case %ld: the pipe of a reading subscriber went away; fan-out not judged further\n", idx);
+	}
 	vf_stat_max("noblock_worst_send_us", (long) (worst / 1000));
-	vf_stat("compared", sends);
+	vf_stat("compared", sends + fan);
 	vf_stat("cases", 1);
 	vf_class("noblock/sendbuf-%d/msg-%zu/peers-%d/%s/%s%s", sendbuf, msz, nfd, dialout ? "dial" : "listen",
 	    discards > 0 ? "stuck" : "never-stuck", have_lazy ? "/lazy-sub" : "");
-	if ((idx % 4) == 0) {
-		vf_sample("{\"mode\":\"noblock\",\"sendbuf\":%d,\"msgsize\":%zu,\"raw_peers\":%d,\"sends\":%ld,\"queue_overflows\":%ld,\"worst_send_us\":%llu}",
-		    sendbuf, msz, nfd, sends, discards, (unsigned long long) (worst / 1000));
+	if (nh > 0) {
+		vf_class("noblock/readers-%d/%s%s%s/sendbuf-%d/%s", nh, vf_tran_names[hs[0].tran], nh > 1 ? "+" : "", nh > 1 ? vf_tran_names[hs[1].tran] : "",
+		    sendbuf, closed_mid ? "peer-left-in-mid-stream" : "peers-stay");
 	}
-	for (int i = 0; i < nfd; i++) close(fds[i]);
+	if ((idx % 4) == 0) {
+		vf_sample("{\"mode\":\"noblock\",\"sendbuf\":%d,\"msgsize\":%zu,\"raw_peers\":%d,\"reading_subs\":%d,\"sends\":%ld,\"queue_overflows\":%ld,\"fanout_deliveries\":%ld,\"worst_send_us\":%llu}",
+		    sendbuf, msz, nfd, nh, sends, discards, fan, (unsigned long long) (worst / 1000));
+	}
+
+	// all subscribers leave; a PUB without pipes still takes every message
+	atomic_store(&g_closing, 1);
 	if (lfd >= 0) close(lfd);
-	nng_socket_close(pub);
+	for (int k = 0; k < nfd; k++) {
+		if (fds[k] >= 0) close(fds[k]);
+	}
 	if (have_lazy) nng_socket_close(lazy);
+	for (int k = 0; k < nh; k++) nng_socket_close(hs[k].s);
+	if (!bad) {
+		// (not vf_pipe_count: the socket's "pipes" statistic is also counted
+		// down for connections that died during negotiation and never were
+		// counted up, so it can read -1 here)
+		int left = 1;
+		for (int k = 0; k < 10000 && (left = atomic_load(&g_pub_add) - atomic_load(&g_pub_rem)) != 0; k++) vf_msleep(1);
+		if (left == 0) {
+			for (int k = 0; k < 8 && !bad; k++) {
+				int form = k % 4;
+				if ((rv = nb_send(pub, saio, form, (k & 4) ? msz : NB_HDR, 'P', (uint64_t) k, NULL)) != 0) {
+					nb_send_violation(rv, form, "after-last-pipe-left", "send #%d on a PUB (SENDBUF %d) whose %d subscribers have all gone", k, sendbuf, want_pipes);
+					bad = true;
+				} else {
+					vf_stat("noblock_sends_after_last_pipe_left", 1);
+					vf_stat("compared", 1);
+				}
+			}
+		} else {
+			vf_stat("noblock_pipes_did_not_leave", 1);
+		}
+	}
+	nng_aio_free(saio);
+	nng_socket_close(pub);
 }
 
 int
@@ -2228,6 +2924,11 @@ main(int argc, char **argv)
 	if (premature_timeouts) vf_stat("premature_aio_timeouts_tolerated", premature_timeouts);
 	if (abandoned_pipe_lost) vf_stat("cases_abandoned_pipe_lost", abandoned_pipe_lost);
 	if (abandoned_connect) vf_stat("cases_abandoned_connect_failed", abandoned_connect);
+	if (w2_unjudged_cases > 3 && w2_unjudged_cases * 50 > witness_cases) {
+		// (cannot happen while one lock orders the arrivals for all contexts)
+		vf_harness_fail("single-drop oracle switched off in %ld of %ld witness cases: the second witness saw another cross-publisher order than the first",
+		    w2_unjudged_cases, witness_cases);
+	}
 	if (abandoned_pipe_lost + abandoned_connect > 3 && (abandoned_pipe_lost + abandoned_connect) * 50 > ran) {
 		// pipes that keep disappearing would silently shrink what is judged
 		vf_harness_fail("%ld of %ld cases abandoned (pipe lost %ld, connect failed %ld)", abandoned_pipe_lost + abandoned_connect, ran,
